@@ -71,8 +71,18 @@ func writeTree(dir string, t Tree) error {
 		if err := os.MkdirAll(filepath.Dir(full), 0755); err != nil {
 			return err
 		}
-		if err := os.WriteFile(full, f.Bytes(), 0644); err != nil {
+		perm := os.FileMode(0644)
+		if f.Exec {
+			perm = 0755
+		}
+		if err := os.WriteFile(full, f.Bytes(), perm); err != nil {
 			return err
+		}
+		if f.Exec {
+			// WriteFile applies the umask; the executable bit is what git records
+			if err := os.Chmod(full, 0755); err != nil {
+				return err
+			}
 		}
 	}
 	return nil
